@@ -85,7 +85,12 @@ def lex_rule(ctx, g):
     # words that name another token (NUMBER, STRING, TIMES ...) are ordinary identifiers
     others = sorted(t_ for t_ in set(g.tokens) - set(g.keywords) if t_.isalpha())[:3]
     wrong = None
-    for lexeme in [kw0.upper(), kw0.lower(), kw0.capitalize(), 'not_a_keyword_x'] + [o.lower() for o in others] + others:
+    def mixed(w):
+        return ''.join(ch.upper() if i % 2 else ch.lower() for i, ch in enumerate(w))
+    spellings = []
+    for kw in sorted(g.keywords):           # every keyword in every kind of spelling: the decision may single out one word or one spelling
+        spellings += [kw.upper(), kw.lower(), kw.capitalize(), mixed(kw), kw.lower().title()]
+    for lexeme in spellings + ['not_a_keyword_x'] + [o.lower() for o in others] + others:
         out, tr = ti.run({'lexeme': lexeme})
         types = [t[1] for t in tr if t[0] == 'type']
         want = [lexeme.upper()] if lexeme.upper() in set(g.keywords) else []
